@@ -15,3 +15,4 @@ def check(ctx, prog):
     dispatch.rule_mode_arith(ctx, prog)  # scope: the capacity guards hold in both execution modes
     dispatch.rule_swallowed_raise(ctx, prog)
     capacity.rule_index_width(ctx, prog)  # the arrays that carry shared-domain indices have one integer type
+    capacity.rule_error_propagates(ctx, prog)
